@@ -3,10 +3,10 @@ package main
 // C05: generated CRUD statements agree with the schema.
 
 import (
-	"go/parser"
 	"fmt"
 	"go/ast"
 	"go/constant"
+	"go/parser"
 	"go/token"
 	"go/types"
 	"regexp"
@@ -21,7 +21,9 @@ func checkC05(w *World, r *Result) {
 	r.Rules = []string{"AGR-C05a", "AGR-C05b", "AGR-C05e", "TPL-C05c", "AGR-C05d", "AGR-C08f", "AGR-C08t", "AGR-C05k", "TPL-C05p", "TPL-C05s", "RE-C16", "TPL-1", "ALIAS-APPEND", "PRINTF", "MUT-AN"}
 	mutAnRule(w, r, func(rel string) bool { return rel == "generator/go/sqlcrud" })
 	printfRule(w, r, "generator/go/sqlcrud")
-	aliasAppendRule(w, r, func(rel string) bool { return rel == "analysis/sql" || rel == "generator/go/sqlcrud" || rel == "generator" })
+	aliasAppendRule(w, r, func(rel string) bool {
+		return rel == "analysis/sql" || rel == "generator/go/sqlcrud" || rel == "generator"
+	})
 	checkColumnsCode(w, r)
 	checkStatements(w, r)
 	n := checkTableNaming(w, r, "generator/go/sqlcrud")
